@@ -56,7 +56,10 @@ structure Cfg where
   writeCallKinds : List Kind
   callAddsChanges : Bool
   callAddsRefArgs : Bool
+  /-- the call case resolves a callee of the form `P.f` (function of process P's template) to that function -/
+  writeCallResolvesDot : Bool
   /-- collect_possible_reads -/
+  readCallResolvesDot : Bool
   readCallKinds : List Kind
   callAddsDepends : Bool
   readsPropagatesRandom : Bool
@@ -74,6 +77,10 @@ structure Cfg where
   erasesParamDepends : Bool
   /-- StatementBuilder::collectDependencies (the `restricted` sets): does the closure look into function bodies? -/
   depsFollowFunctions : Bool
+  /-- TypeChecker::visitInstance: `$Incompatible_argument` is raised for a non-computable argument of a by-value
+      parameter / of a constant reference parameter -/
+  argValueNeedsCtc : Bool
+  argConstRefNeedsCtc : Bool
   /-- number of `handleError(.., "$<site>")` statements guarded by `changes_any_variable()` (or, for
       `notComputable`, by `!isCompileTimeComputable(..)`) found in src/typechecker.cpp -/
   sites : List (Site × Nat)
